@@ -440,6 +440,62 @@ def topic_fanout(sym, tier):
     return r
 
 
+
+# ------------------------------------------------------------------ OutboxRelay in the engine
+def outbox_relay(sym, tier):
+    """A real OutboxRelay (relay latency 0 or 1 ms, batch size 1-2, poll interval 10 ms) in the real engine:
+    a writer adds 1-3 entries at symbolic whole milliseconds and primes the poll loop.  Every entry
+    written reaches the downstream entity exactly once, in the order written; nothing is dated before
+    the clock; entries_relayed counts what really arrived."""
+    from happysimulator.components.microservice.outbox_relay import OutboxRelay
+    r = Result()
+    lat = [0.0, 0.001][sym.choice("relay_latency", 2)]
+    batch = 1 + sym.choice("batch_size_minus_1", 2)
+    got = []
+
+    class Down(Entity):
+        def handle_event(self, event):
+            pl = event.context.get("payload")
+            if pl is not None:
+                got.append((pl.get("n"), self.now.nanoseconds))
+
+    down = Down("down")
+    ob = OutboxRelay("outbox", downstream=down, poll_interval=0.01, batch_size=batch, relay_latency=lat)
+    n = 1 + sym.choice("entries_minus_1", 3)
+    t = 0
+    plan = []
+    for i in range(n):
+        t = t + sym.choice(f"gap{i}", 3) * 5          # 0, 5 or 10 ms after the previous write
+        plan.append(t)
+
+    class Writer(Entity):
+        def handle_event(self, event):
+            i = int(event.event_type[1:])
+            ob.write({"n": i})
+            return [ob.prime_poll()] if i == 0 else None
+
+    wr = Writer("writer")
+    sim = Simulation(entities=[ob, down, wr], end_time=Instant((t + 200) * 1_000_000))
+    mon = Monitor(sim, cap=60)
+    sim.schedule([mk_event(tm * 1_000_000, f"w{i}", wr) for i, tm in enumerate(plan)])
+    try:
+        sim.run()
+    except SpinDetected:
+        pass
+    mon.judge(r, "outbox_relay")
+    arrived = [x[0] for x in got]
+    if arrived != list(range(n)):
+        r.bad("every_entry_reaches_the_downstream_once_in_order", {"written": list(range(n)), "arrived": got, "plan_ms": plan, "relay_latency_s": lat, "batch": batch})
+    if ob.stats.entries_relayed != len(arrived):
+        r.bad("relayed_counter_matches_arrivals", {"counter": ob.stats.entries_relayed, "arrived": len(arrived)})
+    if lat > 0 and n >= 2:
+        r.wit.add("non_zero_relay_latency_and_two_entries")
+    if n > batch:
+        r.wit.add("more_entries_than_one_batch")
+    r.obs = {"arrived": got}
+    return r
+
+
 MANIFEST = {
     "note": "Message-queue delivery latency from {0, 1 ms}; publish / poll instants are symbolic whole milliseconds; consumer reactions are a symbolic script. "
             "Topic, EventLog offsets/retention, stream processor, outbox relay and idempotency store are not covered by this check.",
@@ -460,6 +516,12 @@ HARNESSES = [
       functions=["Topic.subscribe/unsubscribe/publish/handle_event"],
       bounds=lambda tier: {"subscribers": 2 if tier == "quick" else 3, "steps": 4, "step kinds": ["subscribe", "unsubscribe", "publish"], "instants": "whole ms, each 0-1 (thorough 0-2) ms after the previous step", "delivery latency": [0.0, 0.001]},
       outside=["replay_history / retained messages", "max_subscribers", "a membership change while a publish is paying its delivery latency (the audience is fixed when the publish begins)"]),
+    H(name="c19_outbox_relay", fn=outbox_relay, shape="S", budget=lambda tier: 600.0,
+      cubes=lambda tier: [{"relay_latency": a, "batch_size_minus_1": b} for a in range(2) for b in range(2)],
+      require=lambda tier: ["non_zero_relay_latency_and_two_entries", "more_entries_than_one_batch"], classify=asg_classify,
+      functions=["OutboxRelay.write/prime_poll/handle_event/_handle_poll/_schedule_poll"],
+      bounds=lambda tier: {"entries": "1-3, written 0/5/10 ms apart", "relay latency": [0.0, 0.001], "batch size": [1, 2], "poll interval": "10 ms", "run": "200 ms after the last write"},
+      outside=["relay failures", "idempotency store", "stream processor"]),
     H(name="c19_event_log_ops", fn=event_log_ops, shape="S", budget=lambda tier: 900.0 if tier == "quick" else 3000.0,
       cubes=lambda tier: [{"retention_max_records": a, "op1": b, "op2": c} for a in range(3) for b in range(3) for c in range(3)],
       require=lambda tier: ["records_expired", "read_below_the_retained_range"], classify=asg_classify,
